@@ -400,6 +400,11 @@ func (mp *MarkLigPos) Sanitize() error {
 	if exp, got := mp.LigatureCoverage.Len(), len(mp.LigatureArray.LigatureAttachs); exp != got {
 		return fmt.Errorf("GPOS: invalid MarkBasePos marks count (%d != %d)", exp, got)
 	}
+	for _, ligAttach := range mp.LigatureArray.LigatureAttachs {
+		if err := ligAttach.Anchors().sanitizeOffsets(); err != nil {
+			return err
+		}
+	}
 
 	return nil
 }
